@@ -1,6 +1,7 @@
 package spine
 
 import (
+	"errors"
 	"sync"
 	"sync/atomic"
 	"time"
@@ -86,6 +87,14 @@ func (c *HeartbeatManager) StartHeartbeat() error {
 	timeout, err := c.heartBeatTimeout.GetTimeDuration()
 	if err != nil {
 		return err
+	}
+
+	// without the local device diagnosis server feature there is nothing to update
+	c.mux.Lock()
+	localFeature := c.localFeature
+	c.mux.Unlock()
+	if localFeature == nil {
+		return errors.New("the device diagnosis server feature with the heartbeat function is missing")
 	}
 
 	c.stopMux.Lock()
